@@ -30,6 +30,7 @@
 (*  DbMark       db_polygon: the mark of one sample.                        *)
 (*  Subdivide, Staircase  refinements giving polygons with hundreds of      *)
 (*               vertices (collinear vertices, many horizontal edges).      *)
+(*  RingsOfRows, FileRows  polygon sets described by a CSV / WKT file.      *)
 (*  HullChain, HullCode  convex hull of a lattice point set as an exact     *)
 (*               polygon (monotone chain) and as a point set (half-planes);  *)
 (*               DbHullMark = selection by convex hull (db_selhull).         *)
@@ -268,6 +269,42 @@ Staircase(p, k) ==
         ELSE IF r % 2 = 0 THEN <<ax + t * dx, ay + t * dy>>
         ELSE IF i % 2 = 1 THEN <<ax + (t + 1) * dx, ay + t * dy>>
         ELSE <<ax + t * dx, ay + (t + 1) * dy>>]
+
+-----------------------------------------------------------------------------
+(* Polygon sets read from a file (Polygons::createFromCSV: one vertex per    *)
+(* row, rings separated by rows of undefined values; createFromWKT: the same *)
+(* rings in one MULTIPOLYGON text).  A row is a vertex <<x, y>> or the        *)
+(* separator Sep.  The polygon set a file describes: every maximal run of     *)
+(* vertex rows is a ring, EVERY row that is not a separator is a vertex of    *)
+(* its ring; rings of fewer than 3 rows are not polygons (Polygons::          *)
+(* addPolyElem ignores them); a ring may be given closed or left open.        *)
+
+Sep == <<>>
+\* rows -> sequence of rings (vertex lists as given)
+RingsOfRows(rows) ==
+  LET F[i \in 0..Len(rows)] ==          \* [done: finished rings, cur: ring being read]
+        IF i = 0 THEN [done |-> <<>>, cur |-> <<>>]
+        ELSE LET st == F[i-1] IN
+             IF rows[i] = Sep THEN [done |-> Append(st.done, st.cur), cur |-> <<>>]
+             ELSE [st EXCEPT !.cur = Append(st.cur, rows[i])]
+      fin == F[Len(rows)]
+      all == IF fin.cur = <<>> THEN fin.done ELSE Append(fin.done, fin.cur)
+  IN SelectSeq(all, LAMBDA r : Len(r) >= 3)
+
+\* the rows of a file holding the polygons ps (open vertex lists); closedFlags[i]: ring i is written
+\* with its first vertex repeated; trailing: a separator row also after the last ring
+FileRows(ps, closedFlags, trailing) ==
+  LET F[i \in 0..Len(ps)] ==
+        IF i = 0 THEN <<>>
+        ELSE F[i-1] \o (IF closedFlags[i] THEN Closed(ps[i]) ELSE ps[i])
+                    \o (IF i < Len(ps) \/ trailing THEN <<Sep>> ELSE <<>>)
+  IN F[Len(ps)]
+
+\* the set obtained from the file is the set the API builds from the same polygons
+FileDescribes(rows, ps) ==
+  LET rs == RingsOfRows(rows) IN
+  /\ Len(rs) = Len(ps)
+  /\ \A i \in 1..Len(ps) : ClosePolyElem(rs[i]) = Closed(ps[i])
 
 -----------------------------------------------------------------------------
 (* Convex hulls (Polygons::createFromDb, db_selhull,                          *)
